@@ -534,6 +534,11 @@ impl Settings {
   }
 
   pub fn first_inscription_height(&self) -> u32 {
+    #[cfg(feature = "verif")]
+    if let Some(height) = crate::verif::first_inscription_height() {
+      return height;
+    }
+
     if self.integration_test {
       0
     } else {
